@@ -270,4 +270,93 @@ def circuitOpNat (op : Op) (k : Kind) (n : Nat) (a b : Int) : Nat :=
     if op.isCmp then (if circuitCmp op (k == .int) x y then 1 else 0)
     else (circuitOp op (k == .int) x y b.toNat).toNat
 
+/-! ## The region covered by the theorems (decidable; evaluated by the driver)
+
+`hyps op signed n l r` lists the hypotheses of the operator theorems of
+Props/C12.lean that the operand constants `l`, `r` violate; the empty list
+means that the theorem for `op` applies (`covered`).  The check uses it to
+attribute every oracle failure on the unchanged tree to a named hypothesis. -/
+
+/-- The low `n` wires of a constant. -/
+def seenBV (n : Nat) (c : CV) : BitVec n :=
+  match c with
+  | .int t v => BitVec.ofNat n (constWires t v)
+  | .bool b => BitVec.ofNat n (if b then 1 else 0)
+
+/-- Operand of the small path: `mpa` size and type size in 1..64, type at least `n` bits. -/
+def smallOperand (n : Nat) (c : CV) : Bool :=
+  match c with
+  | .int t v => decide (0 < v.bits ∧ v.bits ≤ 64 ∧ n ≤ t.bits ∧ t.bits ≤ 64)
+  | .bool _ => false
+
+/-- The `int64` holds exactly the sign (signed) resp. zero (unsigned) extension
+of the `n` seen bits; an unsigned 64-bit value must not have bit 63 set (it
+would be a negative `int64`). -/
+def extended (signed : Bool) (n : Nat) (c : CV) : Bool :=
+  match c with
+  | .int _ v =>
+    if signed then v.small == (seenBV n c).signExtend 64
+    else v.small == (seenBV n c).setWidth 64 && !v.small.msb
+  | .bool _ => false
+
+/-- Non-negative operand held exactly. -/
+def cleanNonneg (signed : Bool) (n : Nat) (c : CV) : Bool :=
+  match c with
+  | .int _ v => v.small == (seenBV n c).setWidth 64 && !v.small.msb && (!signed || !(seenBV n c).msb)
+  | .bool _ => false
+
+/-- `Int64()` (sign taken from the `mpa` size, not from the type) is the typed value. -/
+def int64Agrees (signed : Bool) (n : Nat) (c : CV) : Bool :=
+  match c with
+  | .int _ v =>
+    match v.int64 with
+    | some i => if signed then i.toInt == (seenBV n c).toInt else i.toInt == ((seenBV n c).toNat : Int)
+    | none => false
+  | .bool _ => false
+
+def mpaBits : CV → Nat
+  | .int _ v => v.bits
+  | .bool _ => 0
+
+def sameKind : CV → CV → Bool
+  | .int a _, .int b _ => a.kind == b.kind
+  | .bool _, .bool _ => true
+  | _, _ => false
+
+/-- Violated hypotheses of the theorem for `op` (integer operands, `n` bits). -/
+def hyps (op : Op) (signed : Bool) (n : Nat) (l r : CV) : List String :=
+  let h (name : String) (ok : Bool) : List String := if ok then [] else [name]
+  if n > 64 then ["wide"] else
+  h "small-operands" (smallOperand n l && (op == .neg || smallOperand (if op.isShift then 0 else n) r)) ++
+  (match op with
+   | .add => h "add-size" (decide (n ≤ max (mpaBits l) (mpaBits r))) ++ h "kind" (sameKind l r)
+   | .sub | .mul | .band | .bor | .bxor | .bclr => h "kind" (sameKind l r)
+   | .div | .mod => h "nonneg-exact" (cleanNonneg signed n l && cleanNonneg signed n r) ++ h "kind" (sameKind l r)
+   | .shl => []
+   | .shr => h "extended" (extended signed n l)
+   | .lt | .le | .gt | .ge | .eq | .ne => h "int64" (int64Agrees signed n l && int64Agrees signed n r)
+   | .neg => []
+   | _ => ["not-an-integer-operator"])
+
+/-- The operands of one generated case as the compiler builds them. -/
+def operands (op : Op) (k : Kind) (n : Nat) (a b : Int) (af bf : Form) : Res (CV × CV) := do
+  let l ← typedConst k n a af
+  if op == .neg then pure (l, l)
+  else if op.isShift then do
+    let r ← literal b.natAbs
+    pure (l, r)
+  else do
+    let r ← typedConst k n b bf
+    pure (l, r)
+
+/-- Driver entry: violated hypotheses of one generated case, and whether the
+operands hold the intended values at all (`operand-value`). -/
+def caseHyps (op : Op) (k : Kind) (n : Nat) (a b : Int) (af bf : Form) : List String :=
+  if k == .bool then [] else
+  match operands op k n a b af bf with
+  | .error _ => ["operand-error"]
+  | .ok (l, r) =>
+    (if seenBV n l == BitVec.ofInt n a && (op == .neg || op.isShift || seenBV n r == BitVec.ofInt n b)
+     then [] else ["operand-value"]) ++ hyps op (k == .int) n l r
+
 end Mpc.Fold
